@@ -113,6 +113,9 @@ fn replay(file: &str) -> i32 {
         }
     };
     ctx::install_panic_hook();
+    // a replayed case that does not terminate ends the process with exit 135 (as in a worker)
+    ctx::install_crash_handler("/dev/null");
+    ctx::start_watchdog(20);
     let mut c = Ctx::new(prop, tier_of(v["tier"].as_str().unwrap_or("quick")), 0, 1);
     println!("replaying {} case (profile {}): {}", prop, ctx::profile_name(), v["signature"].as_str().unwrap_or(""));
     (def.replay)(&mut c, &v["case"]);
